@@ -986,8 +986,18 @@ func runCase(c corr.Case) corr.Result {
 			direct := !w.wrapper && w.trees != nil && !w.dead
 			if l == "parbegin" && direct {
 				end := i + 1
-				for end < len(c.Lines) && strings.TrimSpace(c.Lines[end]) != "parend" {
+				isInit := func(l string) bool { // a line that re-initialises everything ends an open block (as in the oracle)
+					f := strings.Fields(l)
+					return (len(f) == 2 && (f[0] == "new" || f[0] == "newi")) || (len(f) == 1 && f[0] == "neww")
+				}
+				for end < len(c.Lines) && strings.TrimSpace(c.Lines[end]) != "parend" && !isInit(c.Lines[end]) {
 					end++
+				}
+				if end < len(c.Lines) && isInit(c.Lines[end]) {
+					outs = append(outs, "ok")
+					outs = append(outs, w.runPar(c.Lines[i+1:end])...)
+					i = end - 1
+					continue
 				}
 				if end < len(c.Lines) {
 					outs = append(outs, "ok")
